@@ -80,6 +80,7 @@ type vfUnitResult struct {
 	Violations   []vfViolation       `json:"violations,omitempty"`
 	Inconclusive []string            `json:"inconclusive,omitempty"`
 	Done         bool                `json:"done"`
+	Final        bool                `json:"final,omitempty"`
 }
 
 type vfUnit struct {
@@ -428,6 +429,7 @@ func vfChildMain(t *testing.T, c *vfCheck) {
 		}
 		out.Write(append(line, '\n'))
 	}
+	out.Write([]byte("{\"unit\":-1,\"final\":true}\n"))
 }
 
 type vfKnown struct {
@@ -625,12 +627,15 @@ func vfParentMain(t *testing.T, c *vfCheck) {
 				logf.Close()
 				// collect completed units
 				lastDone := -1
+				final := false
 				if f, e := os.Open(out); e == nil {
 					sc := bufio.NewScanner(f)
 					sc.Buffer(make([]byte, 1<<20), 256<<20)
 					for sc.Scan() {
 						var r vfUnitResult
-						if json.Unmarshal(sc.Bytes(), &r) == nil && r.Done {
+						if json.Unmarshal(sc.Bytes(), &r) == nil && r.Final {
+							final = true
+						} else if r.Done {
 							mu.Lock()
 							merged.add(r)
 							mu.Unlock()
@@ -639,7 +644,9 @@ func vfParentMain(t *testing.T, c *vfCheck) {
 					}
 					f.Close()
 				}
-				if err == nil && !timedOut {
+				if (err == nil || final) && !timedOut {
+					// (a race-enabled test binary exits non-zero after a race report even with
+					// exitcode=0 in GORACE when the testing package notices it; the work is complete)
 					return
 				}
 				// the child died: attribute to the last journalled case
@@ -904,7 +911,7 @@ func vfCrashSig(log string) string {
 
 type vfRace struct{ sig, text string }
 
-var vfRaceFrameRe = regexp.MustCompile(`(?m)^\s+(github\.com/pkg/sftp[^\s(]*)\(`)
+var vfRaceFrameRe = regexp.MustCompile(`(?m)^\s+(github\.com/pkg/sftp\S*)\(\)\s*$`)
 
 // vfScanRaces parses the race detector logs of all children, deduplicates by the
 // pair of innermost package frames and keeps only reports that involve non-harness
